@@ -75,6 +75,11 @@ class Ctx(object):
         self.is_nontrivial = False
         self.violations = []
         self.flags = set()
+        self.units = 0
+
+    def count(self, n=1):
+        """number of elementary comparisons made by this execution (reported as cases_checked)"""
+        self.units += n
 
     # -- decisions -------------------------------------------------------------------------
     def choose(self, label, options, free=False):
@@ -200,6 +205,7 @@ class Stats(object):
         self.samples = []
         self.flags = set()
         self.max_dev = 0
+        self.units = 0
         self.harness_errors = []
 
     def merge(self, other):
@@ -221,6 +227,7 @@ class Stats(object):
                 self.samples.append(s)
         self.flags |= other.flags
         self.max_dev = max(self.max_dev, other.max_dev)
+        self.units += other.units
         self.harness_errors.extend(other.harness_errors[:3])
 
 
@@ -259,6 +266,7 @@ def _execute(prefix, stats, want_sample=False):
         stats.nontrivial += 1
         stats.nontrivial_obs.add(obs_key if obs_key is not None else stable_hash(tuple(ctx.choices)))
     stats.flags |= ctx.flags
+    stats.units += ctx.units
     for v in ctx.violations:
         stats.violation_count += 1
         v.notes = _jsonable(ctx.notes)
